@@ -119,7 +119,9 @@ func (p *wat2X64Worker) buildFunc_body(w io.Writer, fn *ast.Func) error {
 
 	// 如果走栈返回
 	// 先将调用者传入的返回值栈地址寄存器参数备份
-	if len(fnNative.Type.Return) > 1 && fnNative.Type.Return[1].Reg == 0 {
+	// 仅 Windows ABI: rcx 保存返回值地址, [rbp+16] 是它的 home 空间.
+	// Unix ABI 下 [rbp+16] 是第一个走栈的参数, rcx 是普通参数, 不能覆盖.
+	if p.cpuType == abi.X64Windows && len(fnNative.Type.Return) > 1 && fnNative.Type.Return[1].Reg == 0 {
 		p.gasCommentInFunc(&bufHeader, "将返回地址备份到栈")
 		fmt.Fprintf(&bufHeader, "    mov qword ptr [rbp%+d], rcx # return address\n", 2*8)
 		fmt.Fprintln(&bufHeader)
